@@ -27,6 +27,19 @@ CLAIMED = {
              'carries floats observable by programs or exported to the host.',
         technique='static analysis: construction-site enumeration + dominance by is_finite guard + value-origin dataflow on resolved MIR',
         design='2/C13'),
+    'C09': dict(
+        level='proof',
+        text='Conservation of the accounted total proved as a structural theorem over all MIR bodies: the counter is mutated only by '
+             'allocate/deallocate; allocate is called only by Managed*::new and deallocate only by their Drop impls with the recorded size; '
+             'Managed* literals occur only in new with size = allocate\'s result; every path of allocate is balanced (Ok: +size once and that '
+             'size is returned, Err: net zero); no leak/duplication primitive outside the audited sort utilities; values are immutable after '
+             'construction so no Rc cycle can form. Also decided: the limit comparison shape and who reads size_limit (monotonicity in L), and '
+             'that the size model reads every runtime-sized payload field. NOT decided: that dyn_size byte counts are adequate numbers, nor peak '
+             'accounting of transient native buffers.',
+        note='Trusted: rustc MIR + drop elaboration (each Managed* value dropped exactly once unless leaked by a listed primitive); '
+             'regex-automata/statrs objects hold no managed values.',
+        technique='static analysis: who-writes / who-calls / construction-site rules, per-path event balance of allocate, type-closure immutability audit on resolved MIR',
+        design='2/C09'),
 }
 
 NA_REASONS = {
